@@ -4,6 +4,13 @@ use crate::run::{run, RunOpts, RunResult};
 use crate::scenario::*;
 
 pub mod c01;
+pub mod c04;
+pub mod c05;
+pub mod c06;
+pub mod c07;
+pub mod c15;
+pub mod c20;
+pub mod util;
 pub mod c09;
 pub mod c10;
 pub mod c19;
@@ -147,6 +154,20 @@ pub fn evaluate(prop: &str, sc: &Scenario) -> Eval {
             ev.violations = c01::check(sc, &res);
             let ok = res.dumps.first().map(|d| d.result.is_ok()).unwrap_or(false);
             ev.nontrivial = ok && (sc.tags.len() > 1 || !isig.is_empty());
+            ev.signature = format!("{}{}", base_signature(sc), isig);
+        }
+        "C04" | "C05" | "C06" | "C07" | "C15" | "C20" => {
+            let res = run(sc, &RunOpts::default());
+            let isig = account(&mut ev, sc, &res);
+            ev.violations = match prop {
+                "C04" => c04::check(sc, &res),
+                "C05" => c05::check(sc, &res),
+                "C06" => c06::check(sc, &res),
+                "C07" => c07::check(sc, &res),
+                "C15" => c15::check(sc, &res),
+                _ => c20::check(sc, &res),
+            };
+            ev.nontrivial = res.dumps.first().map(|d| d.result.is_ok()).unwrap_or(false);
             ev.signature = format!("{}{}", base_signature(sc), isig);
         }
         "C09" => {
